@@ -52,6 +52,23 @@ def gen_cases(tier, seed):
         rng = bases.rng_for("C08", seed, tier, "displaced", la, lb)
         shells, classes = bases.displaced_pair(rng, la, lb)
         cases.append({"shells": shells, "transform": None, "classes": classes + ["T:none", "nsh:2", "types:" + "".join(s_["t"] for s_ in shells)], "cost": 40})
+    # tight shells (top of the published exponent range for their l) about one width apart: the un-normalised primitive
+    # integrals are tiny numbers there while the normalised ones are of order one
+    for k in range(12 if tier == "quick" else 96):
+        rng = bases.rng_for("C08", seed, tier, "tight-near", k)
+        la, lb = [(0, 0), (1, 1), (2, 2), (3, 3), (4, 4), (1, 0), (2, 1), (3, 2), (4, 3), (2, 0), (3, 1), (4, 2)][k % 12]
+        # C08 states no exponent range ("any basis"): every other pair uses exponents 30 or 1000 times above the published
+        # range for its angular momentum (decontracted core functions of heavy elements, even-tempered extensions)
+        shells, classes = bases.tight_near_pair(rng, la, lb, boost=[1.0, 30.0, 1.0, 1000.0][k % 4])
+        cases.append({"shells": shells, "transform": None, "classes": classes + ["T:none", "nsh:2", "types:" + "".join(s_["t"] for s_ in shells)], "cost": 40})
+    # tight shells with a weak overlap: exp(-mu R^2) = 1e-3 .. 1e-13 while the primitive norms are 1e3 .. 1e8, so that the
+    # un-normalised primitive integrals pass through the range of the machine precision while the normalised ones are
+    # still far above the bound
+    for k, t in enumerate(range(6, 30, 2) if tier == "quick" else range(4, 34)):
+        rng = bases.rng_for("C08", seed, tier, "tight-window", t)
+        la, lb = [(0, 0), (1, 0), (1, 1), (2, 1), (2, 2), (3, 2)][k % 6]
+        shells, classes = bases.window_pair(rng, la, lb, tmin=t, tmax=t + 2, emin=bases.cap(max(la, lb)) / 30.0, emax=1e5)
+        cases.append({"shells": shells, "transform": None, "classes": classes + ["tight-window", "T:none", "nsh:2", "types:" + "".join(s_["t"] for s_ in shells)], "cost": 40})
     # the whole molecule far from the coordinate origin (the angular momentum is taken about the origin), with a transformation:
     # 26..60 bohr, where a "local origin" strategy would switch on, and 300..3000 bohr
     for k in range(8 if tier == "quick" else 96):
